@@ -112,7 +112,11 @@ impl ClientVisibility {
         };
 
         if removed {
-            self.added.remove(&entity);
+            // For blacklist `added` contains entities that lost visibility in this tick.
+            // The client still has such an entity, so keep it for `Self::drain_lost`.
+            if matches!(self.list, VisibilityList::Whitelist(_)) {
+                self.added.remove(&entity);
+            }
             self.removed.remove(&entity);
         }
     }
